@@ -268,6 +268,14 @@ func runOpts(raw json.RawMessage, seed int64, rec *Rec) {
 			panic(panicValue(s.Panic.Value))
 		}
 	}
+	// option values are reusable: generated constructors apply the same values once per procedure. Build a
+	// first, unused client and handler from them and observe the second application.
+	if s.Tid%2 == 0 {
+		_ = connect.NewClient[BV, BV](&memTransport{h: http.NotFoundHandler(), major: 2}, "http://verif.test"+e2eProc, copts...)
+		_ = connect.NewUnaryHandler("/verif.v1.Svc/Other", func(context.Context, *connect.Request[BV]) (*connect.Response[BV], error) {
+			return connect.NewResponse(&BV{}), nil
+		}, hopts...)
+	}
 	var h *connect.Handler
 	switch kind {
 	case "unary":
